@@ -60,7 +60,7 @@ def k2_scope(prop):
 WEIGHT = {'tlru': 4, 'utlru': 4, 'utmap': 6, 'utset': 5, 'lfuda': 6, 'lfu': 4, 'fifo': 3, 'lru': 1, 'mru': 1, 'rr': 1}
 
 
-def k2_query(cont, op, n, prop, ts='no', timeout=300, extra=None, tag=''):
+def k2_query(cont, op, n, prop, ts='no', timeout=300, extra=None, tag='', op2=None):
     """prop: 0 = invariant base+step with vstd contracts asserted, 99 = vacuity witness, 8 = contracts + CBMC
     standard checks, otherwise the clauses of that property (vstd contract checks become assumptions: paths on
     which a std precondition is violated belong to C08 / the invariant query)."""
@@ -68,12 +68,39 @@ def k2_query(cont, op, n, prop, ts='no', timeout=300, extra=None, tag=''):
             'VSTD_TAB_MAX': n + 1, 'VSTD_LIST_MAX': n + 1}
     if extra:
         defs.update(extra)
+    if op2 is not None:
+        defs['OP2'] = OP[op2]
+        tag += '_then_' + op2
     cb = []
     if prop not in (0, 8):
         cb.append('VF_CHECK_ASSUME')
     name = 'k2_%s_%s_n%d_p%d_%s%s' % (cont, op, n, prop, ts, tag)
     q = Query(name, 'k2_step.cpp', defs, unwind=n + 4, cbmc_defines=cb, timeout=timeout,
+              cbmc_flags=(['--trace'] if prop != 99 else []),
               standard_checks=(prop == 8),
-              meta={'kind': 'k2', 'cont': cont, 'op': op, 'n': n, 'prop': prop, 'ts': ts,
+              meta={'kind': 'k2' if op2 is None else 'k2x2', 'cont': cont, 'op': op, 'op2': op2, 'n': n, 'prop': prop, 'ts': ts,
+                    'mem_gb': {1: 1, 2: 3, 3: 6}.get(n, 10) if cont in ('lfuda', 'utmap', 'utset', 'tlru', 'utlru', 'lfu') else {1: 1, 2: 1, 3: 3}.get(n, 8),
                     'weight': WEIGHT.get(cont, 2) * (8 ** (n - 1)) * (2 if op == 'insert' else 1)})
     return q
+
+
+K1_MEM = {'lru': 1, 'mru': 1, 'rr': 1, 'fifo': 1, 'tlru': 3, 'utlru': 3, 'lfu': 4, 'lfuda': 6, 'utmap': 5, 'utset': 4}
+
+
+def k1_query(cont, n, ksteps, prop, ts='no', timeout=600, extra=None, tag=''):
+    """bounded history from the real constructor; keys range over a small universe (the code only compares keys)"""
+    nkeys = n + 1 if cont in ('utmap', 'utset') else n + 2
+    defs = {'CONT_HDR': '"c_%s.hpp"' % cont, 'HCAP': n, 'KSTEPS': ksteps, 'PROP': prop, 'TS': ts, 'NKEYS': nkeys,
+            'VSTD_TAB_MAX': n + 1, 'VSTD_LIST_MAX': n + 1}
+    if extra:
+        defs.update(extra)
+    cb = []
+    if prop not in (0, 8):
+        cb.append('VF_CHECK_ASSUME')
+    name = 'k1_%s_n%d_k%d_p%d_%s%s' % (cont, n, ksteps, prop, ts, tag)
+    return Query(name, 'k1_hist.cpp', defs, unwind=max(ksteps + 1, n + 4), cbmc_defines=cb, timeout=timeout,
+                 cbmc_flags=(['--trace'] if prop != 99 else []),
+                 standard_checks=(prop == 8),
+                 meta={'kind': 'k1', 'cont': cont, 'n': n, 'k': ksteps, 'prop': prop, 'ts': ts,
+                       'mem_gb': K1_MEM.get(cont, 2) * max(1, ksteps - 2),
+                       'weight': WEIGHT.get(cont, 2) * (8 ** (n - 1)) * ksteps * 4})
